@@ -1,7 +1,54 @@
-//! WoodiesCCI — reference model (TODO).
+//! WoodiesCCI. Doc: 2 values — `Turbo CCI` (period1), `Trend CCI` (period2), both unbounded.
+//! CCI = (x - SMA(x, n)) / (0.015 * mean absolute deviation of the last n values of x).
+//! 1 signal: when the `Trend CCI` stays above the zero line for `s1_lag` bars: full buy; when it stays
+//! below the zero line for `s1_lag` bars: full sell; otherwise no signal.
 use super::*;
 
-/// returns None until the reference is written
-pub fn make(_cfg: &Cfg, _c0: &RC) -> Option<Box<dyn IndRef>> {
-	None
+#[derive(Clone)]
+pub struct WoodiesCci {
+	src: String,
+	lag: usize,
+	turbo: rm::Win,
+	trend: rm::Win,
+	up_run: usize,
+	down_run: usize,
+}
+
+// † follows the implementation: the doc comment does not state the scale of the two values; yata returns
+// (x - mean) / (1.5 * mean abs dev), i.e. the classic CCI (constant 0.015) divided by 100
+const SCALE: f64 = 1.0 / 1.5;
+
+pub fn make(cfg: &Cfg, c0: &RC) -> Option<Box<dyn IndRef>> {
+	let src = cfg.src("source");
+	let s0 = source(c0, &src);
+	Some(Box::new(WoodiesCci {
+		turbo: rm::Win::new_q(rm::WinKind::Cci, cfg.int("period1"), s0),
+		trend: rm::Win::new_q(rm::WinKind::Cci, cfg.int("period2"), s0),
+		lag: cfg.int("s1_lag"),
+		// the CCI of the constant prehistory is 0: neither above nor below the zero line
+		up_run: 0,
+		down_run: 0,
+		src,
+	}))
+}
+
+impl IndRef for WoodiesCci {
+	fn values(&mut self, c: &RC) -> Vec<Q> {
+		let s = source(c, &self.src);
+		let turbo = self.turbo.step(s).scale(SCALE);
+		let trend = self.trend.step(s).scale(SCALE);
+		vec![turbo, trend]
+	}
+	fn signals(&mut self, _c: &RC, own: &[f64]) -> Vec<Sig> {
+		let trend = own[1];
+		// number of consecutive bars (including this one) with the Trend CCI above / below the zero line;
+		// a bar exactly on the zero line is on neither side
+		self.up_run = if trend > 0.0 { self.up_run + 1 } else { 0 };
+		self.down_run = if trend < 0.0 { self.down_run + 1 } else { 0 };
+		// † follows the implementation (its evident intent, `|count| == s1_lag`): the signal is given once,
+		// on the bar that completes `s1_lag` bars on the same side, not repeated on the following bars
+		let s = (self.up_run == self.lag) as i32 - (self.down_run == self.lag) as i32;
+		vec![sig_sign(s)]
+	}
+	indref!(WoodiesCci);
 }
